@@ -167,7 +167,10 @@ func c15Jobs(tier string) []*SeqJob {
 			d = depth - 1
 		}
 		j.Run = func(ctx *SeqCtx) { bfs(ctx, alphabet, d, c15Exec(nd, alphabet)) }
-		j.Replay = func(ops []string) (string, string) { c, dd, _, _ := c15Exec(nd, alphabet)(opIndex(alphabet, ops)); return c, dd }
+		j.Replay = func(ops []string) (string, string) {
+			c, dd, _, _ := c15Exec(nd, alphabet)(opIndex(alphabet, ops))
+			return c, dd
+		}
 		jobs = append(jobs, j)
 	}
 	jobs = append(jobs, c15ReporterJobs(tier)...)
